@@ -67,6 +67,24 @@ fn exec_x(state: &mut St, s: &Sx, outs: &mut Vec<String>) {
         });
         return;
     }
+    if name == "hold" {
+        // `state.holding::<T>(|t, st| { t.0 += d; body; ok|err })` (any nesting, bodies with every statement kind)
+        let (k, d, ok) = (nat(a, 0), nat(a, 1), a[2].atom() == Some("ok"));
+        let body = &a[3..];
+        let mut inner = vec![];
+        let r = with_key!(k, T => catch(|| state.holding::<T>(|t, st| {
+            t.0 = t.0.wrapping_add(d);
+            for s in body { exec_x(st, s, &mut inner); }
+            if ok { Ok(()) } else { Err(eyre::eyre!("body failed")) }
+        })));
+        outs.extend(inner);
+        outs.push(match r {
+            Some(Ok(())) => "ok".into(),
+            Some(Err(e)) => match e.downcast_ref::<mahf::StateError>() { Some(se) => err_s(se), None => "(e exec)".into() },
+            None => "panic".into(),
+        });
+        return;
+    }
     if let Some(o) = exec_xop(state, s) { outs.push(o); return; }
     outs.push(exec_rop(state, s));
 }
@@ -144,6 +162,18 @@ fn alphabet(keys: &[u64], vals: &[u64], level: u8) -> Vec<String> {
         // with_inner_state nested three deep, err in the middle
         v.push("(inner ok (ins 0 8) (inner err (ins 1 7) (inner ok (ins 0 6) (bvalmut 1 5) (rem 0)) (trybval 0)) (tryget 1))".into());
         v.push("(inner err (inner ok (inner ok (ent-orins-w 0 4 5) (set 1 6)) (bor 0)) (trybor 1))".into());
+    }
+    // State::holding: nested holdings of two different types (the type of the outer call in the innermost scope,
+    // in an enclosing scope, in the same scope as the inner call's), bodies that insert / remove / open scopes / fail
+    v.push("(hold 1 1 ok (hold 0 2 ok (tryget 0) (tryget 1)))".into());
+    v.push("(hold 0 1 ok (hold 1 2 err (ins 0 9)))".into());
+    v.push("(inner ok (ins 1 8) (hold 1 1 ok (hold 0 2 ok)))".into());
+    if level == 2 {
+        v.push("(hold 0 1 ok)".into());
+        v.push("(hold 1 1 err (rem 0) (ins 1 7))".into());
+        v.push("(hold 0 1 err (inner ok (ins 1 8) (ins 0 6) (hold 1 2 ok (has 0) (dump))))".into());
+        v.push("(inner err (ins 0 8) (hold 0 1 ok (hold 1 2 ok (inner ok (ins 0 4) (ins 1 5)) (dump))) (tryget 1))".into());
+        v.push("(hold 0 1 ok (rem 0) (ins 1 7) (inner err (ins 0 5) (bvalmut 1 3)) (hold 1 1 ok (ent-orins-w 0 4 5)))".into());
     }
     if full {
         v.push("(multi (1 0) 2)".into());
@@ -245,6 +275,65 @@ impl Gen {
         }
         format!("(inner {ok} {})", body.join(" "))
     }
+    /// one statement of a closure body (no raw push/pop): an operation, a `with_inner_state` scope or a `holding`
+    /// of a type that no enclosing `holding` holds (`held`); `depth` = nesting depth of closures so far
+    fn body_stmt(&mut self, depth: u64, held: &mut Vec<u64>) -> String {
+        if depth < 5 && self.rng.chance(1, 3) { return self.hold(depth, held); }
+        if depth < 5 && self.rng.chance(1, 5) {
+            let ok = if self.rng.chance(2, 3) { "ok" } else { "err" };
+            let n = self.rng.below(4);
+            let body: Vec<String> = (0..n).map(|_| self.body_stmt(depth + 1, held)).collect();
+            return format!("(inner {ok} {})", body.join(" "));
+        }
+        loop {
+            let o = self.op();
+            if o == "(push)" || o == "(pop)" { continue; }
+            return o;
+        }
+    }
+    /// `holding::<K>` with a random body; K differs from every type held by an enclosing `holding`
+    fn hold(&mut self, depth: u64, held: &mut Vec<u64>) -> String {
+        let free: Vec<u64> = (0..4).filter(|k| !held.contains(k)).collect();
+        if free.is_empty() { return format!("(tryget {})", self.rng.below(4)); }
+        let k = free[self.rng.below(free.len() as u64) as usize];
+        let ok = if self.rng.chance(3, 4) { "ok" } else { "err" };
+        let d = self.rng.range(1, 3);
+        held.push(k);
+        let n = self.rng.below(4);
+        let mut body = vec![];
+        // nested holdings of other types: the shape `holding::<A>(|a, s| s.holding::<B>(|b, s| ..))`
+        if depth < 5 && self.rng.chance(2, 3) { body.push(self.hold(depth + 1, held)); }
+        for _ in 0..n { body.push(self.body_stmt(depth + 1, held)); }
+        held.pop();
+        format!("(hold {k} {d} {ok} {})", body.join(" "))
+    }
+    /// a few types spread over scopes of depth 1..4 (with shadowing), then holdings (nested, different types) issued
+    /// from the innermost scope / from inside `with_inner_state`, then the scopes are popped
+    fn scenario_hold(&mut self, ops: &mut Vec<String>) {
+        let depth = self.rng.range(0, 3);
+        let mut pushed = 0;
+        for lvl in 0..=depth {
+            for k in 0..4 { if self.rng.chance(if k < 2 { 2 } else { 1 }, 3) { ops.push(format!("(ins {k} {})", self.val())); } }
+            if lvl < depth { ops.push("(push)".into()); pushed += 1; }
+        }
+        for _ in 0..self.rng.range(1, 3) {
+            let mut held = vec![];
+            if self.rng.chance(1, 3) {
+                // the holdings run inside a fresh scope that first receives some states
+                let ok = if self.rng.chance(3, 4) { "ok" } else { "err" };
+                let mut body = vec![];
+                for k in 0..4 { if self.rng.chance(1, 2) { body.push(format!("(ins {k} {})", self.val())); } }
+                body.push(self.hold(1, &mut held));
+                for _ in 0..self.rng.below(3) { body.push(self.body_stmt(1, &mut held)); }
+                ops.push(format!("(inner {ok} {})", body.join(" ")));
+            } else {
+                ops.push(self.hold(0, &mut held));
+            }
+            if self.rng.chance(1, 2) { ops.push(self.op()); }
+        }
+        for k in 0..4 { if self.rng.chance(1, 2) { ops.push(format!("(tryget {k})")); } }
+        for _ in 0..pushed { if self.rng.chance(3, 4) { ops.push("(pop)".into()); ops.push(format!("(tryget {})", self.rng.below(4))); } }
+    }
     /// all eight types spread over a few scopes, then multi-borrows of arity 5..8
     fn scenario_wide(&mut self, ops: &mut Vec<String>) {
         for k in 0..NTYPES {
@@ -342,6 +431,19 @@ fn main() {
             else { ops.push(g.op()); }
         }
         emit("rand", ops);
+    }
+    // 3. State::holding as an operation of the history (own random stream: the histories above are unchanged)
+    let n_hold = if a.thorough { 40000 } else { 1500 };
+    let mut g = Gen { rng: Sm::new(a.seed ^ 0x484f4c44) };
+    for _ in 0..n_hold {
+        let len = g.rng.range(8, 40) as usize;
+        let mut ops = vec![];
+        while ops.len() < len {
+            if g.rng.chance(2, 3) { g.scenario_hold(&mut ops); }
+            else if g.rng.chance(1, 4) { g.scenario(&mut ops); }
+            else { ops.push(g.op()); }
+        }
+        emit("hold", ops);
     }
     out.finish();
 }
